@@ -4,7 +4,7 @@ Histories — the per-operation theorems lifted to EVERY finite call history (th
 `SOp` is the single-container sub-language whose operations have refinement theorems (it grows with the proof
 families): push_back (of an outside value or of the container's own element i), pop_back, erase, erase(range), clear,
 reserve, shrink_to_fit, resize(n), resize(n, v), append(range), insert(end, n, v), insert(pos, v) / emplace(pos, v),
-insert(pos, T&&), insert(pos, v[i]).  A history is a list of (operation,
+insert(pos, T&&), insert(pos, v[i]), assign(n, v), assign(first, last).  A history is a list of (operation,
 fault list): the fault list is installed before the call, the call returns or throws, and the history continues from
 the world the call left behind — exactly how the harness drives the real container.
 
@@ -19,6 +19,7 @@ the world the call left behind — exactly how the harness drives the real conta
 -/
 import SvModel.Properties.Core
 import SvModel.Properties.InsertProps
+import SvModel.Properties.AssignProps
 
 namespace SvModel.History
 open SvModel Gen
@@ -29,6 +30,7 @@ inductive SOp (α : Type) where
   | reserve (n : Nat) | shrinkToFit | resize (n : Nat) (dflt : α) | resizeVal (n : Nat) (v : α)
   | append (vs : List α) | insertEndN (n : Nat) (v : α)
   | insert (p : Nat) (v : α) | insertMove (p : Nat) (v : α) | insertSelf (p i : Nat)
+  | assign (n : Nat) (v : α) | assignRange (vs : List α)
 
 /-- API preconditions, in terms of the current size -/
 def SOp.valid (size : Nat) : SOp α → Prop
@@ -57,6 +59,8 @@ def SOp.run (cfg : Cfg) (c : Nat) (w : World α) : SOp α → M α Unit
   | .insert p v => emplaceAt cfg c p (.ext v) false >>= fun _ => pure ()
   | .insertMove p v => emplaceAt cfg c p (.extMove v) true >>= fun _ => pure ()
   | .insertSelf p i => emplaceAt cfg c p (.copyOf (w.hdr c).data i) false >>= fun _ => pure ()
+  | .assign n v => assignWithCopies cfg c n (.ext v)
+  | .assignRange vs => assignWithRangeFwd cfg c (vs.map Src.ext)
 
 /-- what std::vector does (Spec/L0.lean) -/
 def SOp.spec : SOp α → List (Val α) → List (Val α)
@@ -75,12 +79,15 @@ def SOp.spec : SOp α → List (Val α) → List (Val α)
   | .insert p v, xs => (L0.insertAt xs p (.val v)).1
   | .insertMove p v, xs => (L0.insertAt xs p (.val v)).1
   | .insertSelf p i, xs => (L0.insertAt xs p (xs.getD i .husk)).1
+  | .assign n v, _ => L0.assignN n (.val v)
+  | .assignRange vs, _ => L0.assignRange (vs.map Val.val)
 
 /-- operations with the strong exception guarantee (erase and erase(range) only have the basic one) -/
 def SOp.strong : SOp α → Bool
   | .erase _ | .eraseRange _ _ => false
   | .insertEndN _ _ => false     -- insert (end, n, x) is append_copies without the strong policy: basic guarantee
   | .insert _ _ | .insertMove _ _ | .insertSelf _ _ => false   -- strong only at the end position (C05.insert_at_end_strong)
+  | .assign _ _ | .assignRange _ => false                      -- basic guarantee (strong only when it reallocates)
   | _ => true
 
 theorem pre_faults {cfg : Cfg} {w : World α} {c : Nat} (hp : Pre cfg w c) (f : List Nat) : Pre cfg { w with faults := f } c :=
@@ -285,6 +292,31 @@ theorem step_spec (cfg : Cfg) (c : Nat) (op : SOp α) (w : World α) (xs : List 
     | thrown e w' =>
       rw [hr] at hs
       exact ⟨C06.usable_after_throw cfg c w w' hp hs.1.1, fun h => by simp [SOp.strong] at h⟩
+  | assign n v =>
+    show match assignWithCopies cfg c n (.ext v) w with | .ok _ w' => _ | .thrown _ w' => _
+    have hs := assignWithCopies_sat cfg c n v w hp.vec hp.led hp.nmax
+    cases hr : assignWithCopies cfg c n (.ext v) w with
+    | ok r w' =>
+      rw [hr] at hs
+      exact ⟨C06.usable_after_throw cfg c w w' hp hs.basic, hs.holds⟩
+    | thrown e w' =>
+      rw [hr] at hs
+      exact ⟨C06.usable_after_throw cfg c w w' hp hs.1.1, fun h => by simp [SOp.strong] at h⟩
+  | assignRange vs =>
+    have hext : External (vs.map (Src.ext (α := α))) := fun s hs => by obtain ⟨a, _, rfl⟩ := List.mem_map.mp hs; rfl
+    show match assignWithRangeFwd cfg c (vs.map Src.ext) w with | .ok _ w' => _ | .thrown _ w' => _
+    have hs := assignWithRangeFwd_sat cfg c _ w hp.vec hp.led hp.nmax hext
+    cases hr : assignWithRangeFwd cfg c (vs.map Src.ext) w with
+    | ok r w' =>
+      rw [hr] at hs
+      have hm : (vs.map Src.ext).map (srcVal w) = vs.map Val.val := by simp [srcVal, Function.comp_def]
+      refine ⟨C06.usable_after_throw cfg c w w' hp hs.basic, ?_⟩
+      have := hs.holds
+      rw [hm] at this
+      exact this
+    | thrown e w' =>
+      rw [hr] at hs
+      exact ⟨C06.usable_after_throw cfg c w w' hp hs.1.1, fun h => by simp [SOp.strong] at h⟩
 
 /-! ### histories -/
 
@@ -410,13 +442,13 @@ theorem history_refines_plain (cfg : Cfg) (c : Nat) (hpol : StrongPolicy cfg) :
 
 /-! ### non-vacuity: a concrete history on the full inline container [1, 2] -/
 def exHist : List (SOp Int × List Nat) :=
-  [(.pushBack 3, []), (.erase 0, []), (.pushBackSelf 1, [1]), (.reserve 9, []), (.resize 1 0, []), (.append [7, 8], []), (.insertSelf 1 2, [])]
+  [(.pushBack 3, []), (.erase 0, []), (.pushBackSelf 1, [1]), (.reserve 9, []), (.resize 1 0, []), (.append [7, 8], []), (.insertSelf 1 2, []), (.assign 2 5, []), (.insert 1 6, [])]
 
 example : ValidHist Ex.cfgT 0 Ex.w0 exHist := by decide +kernel
 example : ThrowsOnlyStrong Ex.cfgT 0 Ex.w0 exHist := by decide +kernel
 /-- the third call throws (fault at the second fault point, during the reallocating push_back) and changes nothing -/
-example : specHist Ex.cfgT 0 Ex.w0 exHist [.val 1, .val 2] = [.val 2, .val 8, .val 7, .val 8] := by decide +kernel
+example : specHist Ex.cfgT 0 Ex.w0 exHist [.val 1, .val 2] = [.val 5, .val 6, .val 5] := by decide +kernel
 example : let w := runHist Ex.cfgT 0 Ex.w0 exHist
-    (w.mem (w.hdr 0).data).take (w.hdr 0).size = [.obj (.val 2), .obj (.val 8), .obj (.val 7), .obj (.val 8)] := by decide +kernel
+    (w.mem (w.hdr 0).data).take (w.hdr 0).size = [.obj (.val 5), .obj (.val 6), .obj (.val 5)] := by decide +kernel
 
 end SvModel.History
